@@ -28,6 +28,21 @@ func handValues() []cty.Value {
 		cty.NumberIntVal(0), cty.NumberIntVal(-1), cty.MustParseNumberVal("1e400"), cty.MustParseNumberVal("-1e-400"), cty.MustParseNumberVal("0.1"),
 		cty.NumberFloatVal(0.5), cty.NumberFloatVal(0.1),
 	)
+	// deeply nested values (the generated source nests one bracket per level; whatever the parser keeps per
+	// level must not run out): tuples, objects and a mix, 63 to 130 levels
+	for _, depth := range []int{63, 64, 65, 70, 100, 130} {
+		t, o, m := cty.NumberIntVal(1), cty.NumberIntVal(1), cty.StringVal("leaf")
+		for d := 0; d < depth; d++ {
+			t = cty.TupleVal([]cty.Value{t})
+			o = cty.ObjectVal(map[string]cty.Value{"k": o})
+			if d%2 == 0 {
+				m = cty.ListVal([]cty.Value{m})
+			} else {
+				m = cty.MapVal(map[string]cty.Value{"m": m})
+			}
+		}
+		out = append(out, t, o, m, cty.ObjectVal(map[string]cty.Value{"a": t, "b": cty.True}), cty.TupleVal([]cty.Value{o, cty.NumberIntVal(2)}))
+	}
 	big300, _, _ := big.ParseFloat("1"+zeros(299)+"1", 10, 2048, big.ToNearestEven)
 	out = append(out, cty.NumberVal(big300))
 	return out
